@@ -121,5 +121,5 @@ pub fn run(ctx: &Ctx) {
     set_rule("C16", "histories over a generated password set (empty, ASCII, Unicode, 62..200 bytes): start from `key generate` or a given key locked by the working tree's own lock, then 1..6 steps of change-pass (right old password), change-pass with a wrong old password / without KESTREL_NEW_PASSWORD (must fail and print no key), extract-pub (right / wrong password), and encrypt with the current string in a keyring. Model (sk, current password, salts seen): after each change the printed string unlocks with the new password to the same sk, the salt is new, an earlier non-equivalent password fails; extract-pub prints the keyring encoding of the X25519 public key of sk, equal to the line written at generation; no output contains sk raw, hex or base64 (any alignment). Non-trivial = >= 2 password changes or a repeated password; distinct by hash of the history");
     ctx.assume("Linux, no terminal; passwords via KESTREL_PASSWORD / KESTREL_NEW_PASSWORD (UTF-8 without NUL)");
     ctx.shrink_iters.store(30, std::sync::atomic::Ordering::Relaxed);
-    ctx.pbt("change_pass_histories", ctx.n(96, 2_500), strat, check);
+    ctx.pbt("change_pass_histories", ctx.n(160, 2_500), strat, check);
 }
